@@ -12,7 +12,7 @@ fi
 
 f="$1/proto/reader.go"
 if grep -q 'const maxStringSize = 1 << 30' "$f"; then
-  sed -i 's/const maxStringSize = 1 << 30/const maxStringSize = 1 << 24/' "$f"
-  echo "patch-C06: string size cap lowered to 16 MiB in the scratch copy"
+  sed -i 's/const maxStringSize = 1 << 30/const maxStringSize = 1 << 25/' "$f"
+  echo "patch-C06: string size cap lowered to 32 MiB in the scratch copy"
 fi
 exit 0
